@@ -53,6 +53,12 @@ func (c *Ctx) marshalRoots(pkgFilter func(path string) bool) []*ssa.Function {
 
 // reachableLib returns library functions (incl. closures) reachable from roots, not walking below `stop` functions.
 func (c *Ctx) reachableLib(roots []*ssa.Function, stop map[*ssa.Function]bool) map[*ssa.Function]bool {
+	return c.reachableLibOpts(roots, stop, false)
+}
+
+// reachableLibOpts: with cutOnce, closures handed to (*sync.Once).Do / ErrOnce.Do are not followed
+// (once-only initialisation is not part of the steady-state behaviour).
+func (c *Ctx) reachableLibOpts(roots []*ssa.Function, stop map[*ssa.Function]bool, cutOnce bool) map[*ssa.Function]bool {
 	cg := c.P.CallGraph()
 	seen := map[*ssa.Function]bool{}
 	var work []*ssa.Function
@@ -82,6 +88,9 @@ func (c *Ctx) reachableLib(roots []*ssa.Function, stop map[*ssa.Function]bool) m
 				if ci, ok := ins.(ssa.CallInstruction); ok {
 					isCall = true
 					callee = ci.Common().Value
+					if cutOnce && isOnceDo(ci.Common().StaticCallee()) {
+						continue
+					}
 				}
 				for _, op := range ins.Operands(nil) {
 					if op == nil || *op == nil {
@@ -98,6 +107,9 @@ func (c *Ctx) reachableLib(roots []*ssa.Function, stop map[*ssa.Function]bool) m
 		}
 		if n := cg.Nodes[f]; n != nil {
 			for _, e := range n.Out {
+				if cutOnce && isOnceDo(e.Callee.Func) {
+					continue
+				}
 				if e.Site != nil {
 					cc := e.Site.Common()
 					if !cc.IsInvoke() && cc.StaticCallee() == nil {
